@@ -181,6 +181,8 @@ def gen_models(rng, flavour):
 def _candidate_keys(models):
     keys = []
     for m in models:
+        if not m.get("enabled", True):
+            continue  # an ENABLED parameter on a switched-off model is refused by pyxel (outside the valid space)
         for a in m["args"]:
             keys.append(f"pipeline.{m['group']}.{m['name']}.arguments.{a}")
     return keys
@@ -257,12 +259,12 @@ def make_long(case, rng):
     import numpy
 
     cands = [p for p in case["params"] if p["key"].startswith("pipeline.") and not p.get("multi")
-             and not isinstance(p["expect"][0], str)]
+             and not isinstance(p["expect"][0], str) and not p.get("on_disabled_model")]
     if not cands:
         return False
     tgt = rng.choice(cands)
     for p in case["params"]:
-        p["enabled"] = True
+        p["enabled"] = not p.get("on_disabled_model")
         if p is tgt:
             continue
         if len(p["expect"]) > 2:
@@ -281,6 +283,26 @@ def make_long(case, rng):
     return True
 
 
+def add_off_model(case, rng):
+    """a switched-off model (it would change its pixel if it ran) and DISABLED parameters pointing at its arguments:
+    'disabled parameters are ignored' — whatever they point at"""
+    used = {(m["group"], m["name"]) for m in case["models"]}
+    while True:
+        g, n = rng.choice(GROUPS[1:9]), rng.choice(MODEL_NAMES + ["stray"])
+        if (g, n) not in used:
+            break
+    args = {a: rng.randrange(1, 100) for a in rng.sample(ARG_NAMES, rng.choice([1, 2]))}
+    case["models"].append({"group": g, "name": n, "args": args, "enabled": False})
+    for a in list(args)[: rng.choice([1, 2])]:
+        key = f"pipeline.{g}.{n}.arguments.{a}"
+        if case["mode"] == "custom":
+            p = {"key": key, "decl": "_", "enabled": False, "width": None, "on_disabled_model": True}
+        else:
+            vals = _scalar_values(rng, rng.choice([1, 2, 3]), "int")
+            p = {"key": key, "decl": vals, "expect": vals, "enabled": False, "multi": False, "on_disabled_model": True}
+        case["params"].insert(rng.randrange(len(case["params"]) + 1), p)
+
+
 def gen_table(rng, params):
     en = [p for p in params if p["enabled"]]
     nrows = rng.choice([1, 2, 3, 4, 5])
@@ -297,10 +319,10 @@ def gen_table(rng, params):
     return rows
 
 
-def gen_case(rng, mode=None, with_dask=None, flavour=None, max_runs=16):
+def gen_case(rng, mode=None, with_dask=None, flavour=None, max_runs=16, off_model=None):
     mode = mode or rng.choice(["product", "product", "sequential", "custom"])
     if flavour is None:
-        flavour = rng.choice(["plain", "fine", "vectors", "two_models_same_arg", "same_model_two_groups", "field_vs_arg"])
+        flavour = rng.choice(["plain", "fine", "vectors", "off_model", "two_models_same_arg", "same_model_two_groups", "field_vs_arg"])
     models = gen_models(rng, flavour)
     params = gen_params(rng, models, mode, flavour, max_runs)
     case = {
@@ -314,8 +336,10 @@ def gen_case(rng, mode=None, with_dask=None, flavour=None, max_runs=16):
                          | ({"environment.temperature"} if rng.random() < 0.3 else set())),
         "params": params,
     }
+    if flavour == "off_model" or (off_model is None and rng.random() < 0.15) or off_model:
+        add_off_model(case, rng)
     if flavour == "long_expr" and mode != "custom" and not make_long(case, rng):
-        return gen_case(rng, mode=mode, with_dask=with_dask, flavour=flavour, max_runs=max_runs)
+        return gen_case(rng, mode=mode, with_dask=with_dask, flavour=flavour, max_runs=max_runs, off_model=off_model)
     if mode == "custom":
         case["table"] = gen_table(rng, params)
         case["extra_cols"] = rng.choice([0, 0, 1, 2])
@@ -338,7 +362,8 @@ def pipeline_groups(case, delay_ms=0.0, extra=None):
         args = {"slot": i, **json.loads(json.dumps(m["args"]))}
         if delay_ms:
             args["delay_ms"] = delay_ms
-        groups.setdefault(m["group"], []).append({"name": m["name"], "func": "obsprobes.stamp", "arguments": args})
+        groups.setdefault(m["group"], []).append({"name": m["name"], "func": "obsprobes.stamp", "arguments": args,
+                                                  "enabled": m.get("enabled", True)})
     for g, ms in (extra or {}).items():
         groups.setdefault(g, []).extend(ms)
     if case["fields"]:
@@ -422,7 +447,7 @@ def build_from_yaml(case, folder, with_dask=None, delay_ms=0.0, extra=None):
             "characteristics": {"quantum_efficiency": 0.9, "charge_to_volt_conversion": 1e-6, "pre_amplification": 100.0,
                                 "full_well_capacity": 100000, "adc_bit_resolution": 16, "adc_voltage_range": [0.0, 10.0]},
         },
-        "pipeline": {g: [{"name": m["name"], "func": m["func"], "enabled": True, "arguments": m["arguments"]} for m in ms]
+        "pipeline": {g: [{"name": m["name"], "func": m["func"], "enabled": m.get("enabled", True), "arguments": m["arguments"]} for m in ms]
                      for g, ms in pipeline_groups(case, delay_ms, extra).items()},
     }
     cfg = loads(yaml.safe_dump(doc, sort_keys=False))
@@ -459,6 +484,9 @@ def expected_data(case, assignment: dict):
 
     out = []
     for m in case["models"]:
+        if not m.get("enabled", True):
+            out.append(num(0.0))  # a switched-off model never runs: its pixel keeps the reset value
+            continue
         args = dict(m["args"])
         for a in list(args):
             k = f"pipeline.{m['group']}.{m['name']}.arguments.{a}"
@@ -556,7 +584,9 @@ def extract_entries(ds, n_slots, with_image=False, all_times=False):
         e = {"labels": labels, "data": [num(x) for x in data[:n_take]]}
         if with_image and "image" in ds:
             im = np.asarray(ds["image"].isel(sel).values)
-            e["image"] = num(im.reshape(-1)[0])
+            v = im.reshape(-1)[0]
+            # integer buckets exactly (a 64-bit count does not survive a trip through float)
+            e["image"] = [int(v), 1] if np.issubdtype(im.dtype, np.integer) else num(v)
         entries.append(e)
     return {"dims": [str(d) for d in pdims], "entries": entries}
 
@@ -566,7 +596,8 @@ def exec_log(case, extra_slots=0):
     (records are grouped per thread: a worker thread executes its runs one after the other)"""
     import obsprobes
 
-    per = len(case["models"]) + (1 if case["fields"] else 0) + extra_slots
+    per = sum(1 for m in case["models"] if m.get("enabled", True)) + (1 if case["fields"] else 0) + extra_slots
+    off = [i for i, m in enumerate(case["models"]) if not m.get("enabled", True)]
     recs = list(obsprobes.LOG)
     if per == 0:
         return {"ragged": len(recs)}
@@ -577,6 +608,8 @@ def exec_log(case, extra_slots=0):
         cur.append(rec)
         if len(cur) == per:
             vec = [None] * (nslots(case) + extra_slots)
+            for i in off:
+                vec[i] = num(0.0)
             for r in cur:
                 if r[0] in ("stamp", "draw"):
                     vec[r[1]] = num(r[3])
@@ -838,6 +871,49 @@ def property_predicate(case, impl, parallel):
     return None
 
 
+# ------------------------------------------------------------------ wide ADC: integer buckets above 2**53
+def adc_dtype_bits(bits):
+    return 8 if bits <= 8 else 16 if bits <= 16 else 32 if bits <= 32 else 64
+
+
+def check_wide_adc(ck, rng, mode, parallel):
+    """an image writer whose dtype follows `adc_bit_resolution` (33–64 bit: uint64) and whose counts exceed 2**53
+    (saturated code, 2**53+1 …): the entry labelled with given values must hold exactly the count a single exposure
+    with those values gives, on both paths"""
+    case = gen_case(rng, mode=mode, with_dask=parallel, flavour="plain", max_runs=6, off_model=False)
+    case["construction"] = "python"
+    value = rng.choice([2**64 - 1, 2**53 + 1, 2**63 + 12345, 2**60 + 7])
+    fixed = rng.choice([64, 48, 33, 40])
+    case["det_overrides"] = {"detector.characteristics.adc_bit_resolution": fixed}
+    swept = rng.random() < 0.5
+    if swept:
+        bits = rng.sample([64, 40, 16, 57], rng.choice([2, 3]))
+        case["params"].append({"key": "detector.characteristics.adc_bit_resolution", "decl": bits, "expect": bits,
+                               "enabled": True, "multi": False})
+    case["fields"] = sorted(set(case["fields"]) | {"characteristics.adc_bit_resolution"})
+    case["adc_value"] = value
+    extra = {"readout_electronics": [{"name": "adc", "func": "obsprobes.adc_image", "arguments": {"value": value}}]}
+    impl = run_impl(case, with_dask=parallel, extra=extra, extra_slots=0, with_image=True)
+    ck.case({"wide_adc": case, "parallel": parallel}, nontrivial="error" not in impl, stream="wide-adc")
+    ck.count(f"wide-adc:{mode}:{'dask' if parallel else 'seq'}:{'swept' if swept else 'fixed'}")
+    tag = f"{mode}:{'dask' if parallel else 'seq'}:wide-adc"
+    if "error" in impl:
+        ck.violation(f"C05:{tag}:run-fails", f"observation over a valid parameter space fails: {impl['msg']}",
+                     {"wide_adc": case, "parallel": parallel})
+        return
+    spec = spec_runs(case)
+    want = sorted(common.canon([expected_data(case, r["assignment"]),
+                                [min(value, 2 ** adc_dtype_bits(int(r["assignment"].get(
+                                    "detector.characteristics.adc_bit_resolution", fixed))) - 1), 1]]) for r in spec)
+    got = sorted(common.canon([e["data"], e.get("image")]) for e in impl["entries"])
+    if got != want:
+        bad = next((g for g, w in zip(got, want) if g != w), got[-1] if got else None)
+        ck.violation(f"C05:{tag}:bucket-values",
+                     f"ADC count {value} (dtype by adc_bit_resolution): the entries' (pixel fingerprints, image count) are not those of "
+                     f"the single exposures with the labelled values; first differing entry {bad}",
+                     {"wide_adc": case, "parallel": parallel, "got": got[:3], "want": want[:3]})
+
+
 # ------------------------------------------------------------------ check body
 def stable_key(why_key: str) -> str:
     return why_key
@@ -891,8 +967,12 @@ def body(ck: common.Check):
     # directed stream: every mode × path × collision flavour at least once
     for mode in ("product", "sequential", "custom"):
         for wd in (False, True):
-            for flav in ("plain", "fine", "vectors", "two_models_same_arg", "same_model_two_groups", "field_vs_arg"):
+            for flav in ("plain", "fine", "vectors", "off_model", "two_models_same_arg", "same_model_two_groups", "field_vs_arg"):
                 cases.append(("directed", gen_case(rng, mode=mode, with_dask=wd, flavour=flav, max_runs=8)))
+    # integer buckets wider than a double's mantissa (both paths, product and sequential mode)
+    for mode, wd in [("product", True), ("sequential", True), ("product", False)] + \
+            [(rng.choice(["product", "sequential"]), rng.random() < 0.7) for _ in range(0 if quick else 30)]:
+        check_wide_adc(ck, rng, mode, wd)
     # the YAML entry point, with a disabled parameter in every case (all modes, both paths)
     for mode in ("product", "sequential", "custom"):
         for wd in (False, True):
@@ -983,6 +1063,15 @@ def body(ck: common.Check):
 def replay(path):
     common.ensure_repo_on_path()
     rp = json.load(open(path))
+    if "wide_adc" in rp["replay"]:
+        import random
+
+        ck = common.Check("C05", "quick")
+        c = rp["replay"]["wide_adc"]
+        for seed in range(6):  # the failing class (uint64 counts above 2**53) does not depend on the drawn numbers
+            check_wide_adc(ck, random.Random(seed), c["mode"], rp["replay"].get("parallel", True))
+        print("REPRODUCED: " + ck.violations[0]["what"] if ck.violations else "not reproduced (property holds on this input)")
+        return 1 if ck.violations else 0
     case = rp["replay"].get("case")
     if case is None:
         print("replay names a broken obligation/correspondence, no concrete input:", rp["what"])
